@@ -346,7 +346,7 @@ fn main() {
       } else {
         let b = unhex(&cur).expect("v2 hex");
         let v: Value = serde_json::from_slice(&b).expect("v2 json");
-        let mut m = |k: &str, val: Value| -> String {
+        let m = |k: &str, val: Value| -> String {
           let mut x = v.clone();
           x[k] = val;
           hex(serde_json::to_string(&x).unwrap().as_bytes())
